@@ -3,6 +3,7 @@ package builder
 import (
 	"fmt"
 	"go/types"
+	"sort"
 	"strings"
 
 	"github.com/dave/jennifer/jen"
@@ -132,7 +133,7 @@ func (s *Struct) Assign(gen Generator, ctx *MethodContext, assignTo *AssignTo, s
 		stmt = append(stmt, jen.Id("_").Op("=").Add(sourceID.Code.Clone()))
 	}
 
-	for name := range definedFields {
+	for _, name := range sortedNames(definedFields) {
 		return nil, NewError(fmt.Sprintf("Field %q does not exist.\nRemove or adjust field settings referencing this field.", name)).Lift(&Path{
 			Prefix:     ".",
 			TargetID:   name,
@@ -141,6 +142,16 @@ func (s *Struct) Assign(gen Generator, ctx *MethodContext, assignTo *AssignTo, s
 	}
 
 	return stmt, nil
+}
+
+// sortedNames returns the keys in sorted order, so that the reported entry does not depend on map iteration order.
+func sortedNames(m map[string]struct{}) []string {
+	names := make([]string, 0, len(m))
+	for name := range m {
+		names = append(names, name)
+	}
+	sort.Strings(names)
+	return names
 }
 
 func shouldCheckAgainstZero(ctx *MethodContext, s, t *xtype.Type, isUpdate, call bool) bool {
